@@ -7,9 +7,8 @@ re-entrancy is the call `resource.resolve(self)` (a factory resolving its own de
 That call is described by the *resolution guarantee* `resolution_frame` below, which is
   - assumed at the call (contract on the protocol method `ResourceDescriptor.resolve`),
   - PROVED for `_get` itself (normal and exceptional exits), for `get#with1` (the body of get's exclusive section)
-    and for both descriptor implementations of the repository (`_Resource.resolve` / `call` / `_resolve_dependencies`,
-    `_ResourceConfig.resolve`),
-so the only assumed instance is a user-written descriptor class.  The exclusivity itself (who may be inside, the
+    and for the factory-backed descriptor of the repository (`_Resource.resolve` / `call` / `_resolve_dependencies`),
+so the assumed instances are `_ResourceConfig.resolve` (no manager in reach) and user-written descriptor classes.  The exclusivity itself (who may be inside, the
 lock, the call sites) is decided on the AST by propchecks/C22.py and replayed by scenarios/resource_scenario.py.
 """
 from pyvc.dsl import *  # noqa
@@ -30,6 +29,18 @@ PLAIN_CLASSES = {
         ("name", "str"),
         ("cache", "bool"),
     ],
+    "_Resource": [
+        ("_factory", "opaque:Factory"),
+        ("_is_async", "bool"),
+        ("name", "str"),
+        ("cache", "bool"),
+        ("_localns", "dict[str, Any] | None"),
+    ],
+}
+
+OPAQUE_METHODS = {
+    # the user's factory: may raise anything, is handed the resolved dependencies, does not hold the manager
+    ("Factory", "__call__"): dict(ret="Any", pure=False, may_raise=True),
 }
 
 # the direct call of the descriptor's resolve() is recorded in the ghost call log of `_get`
@@ -80,12 +91,12 @@ class DescriptorResolve:
     trusted = True
     modifies = ["manager"]
     raises = ["*user", "CancelledError"]
-    notes = ("the protocol method: ASSUMED for user-written descriptor classes, PROVED for the two implementations of "
-             "the repository (_Resource.resolve, _ResourceConfig.resolve) - a descriptor resolves its own dependencies "
-             "only through manager.get / manager._get, whose effect is the resolution guarantee")
+    notes = ("the protocol method: ASSUMED for user-written descriptor classes and _ResourceConfig.resolve, PROVED for "
+             "the repository's factory-backed descriptor (_Resource.resolve: contract ResourceResolve below) - a "
+             "descriptor resolves its own dependencies only through manager.get, whose effect is the resolution guarantee")
 
     def requires(self, manager):
-        return True
+        return manager._resolution_depth >= 1
 
     def ensures_resolution_guarantee(old, self, manager, result):
         return resolution_frame(old.manager, manager)
@@ -259,3 +270,124 @@ class ResolutionLock:
             and manager_unchanged(old.self, self)
             and same(self._owner, old.self._owner)
         )
+
+
+# ---------------------------------------------------------------------------------------------------------------
+# the repository's own descriptor: `_Resource.resolve -> call -> _resolve_dependencies -> manager.get` keeps the
+# resolution guarantee that `_get` assumes for `resource.resolve(self)` (behavioural subtyping of the protocol method)
+
+@contract("workflows.resource.ResourceManager.get")
+class ManagerGetReentrant:
+    properties = ["C22"]
+    trusted = True
+    modifies = ["self"]
+    raises = ["ValueError", "*user", "CancelledError"]
+    notes = ("composite, for the RE-ENTRANT call (a factory's dependency, made by the task that owns the resolution): "
+             "get() is `async with self.exclusive_resolution(): <get#with1>` (AST obligation is-its-exclusive-section), "
+             "the re-entering owner passes exclusive_resolution without touching anything (AST obligation "
+             "reentry-by-task-identity), and get#with1 is proved with exactly these clauses")
+
+    def requires(self, resource):
+        return self._resolution_depth >= 1
+
+    def ensures_resolution_guarantee(old, self, resource, result):
+        return resolution_frame(old.self, self)
+
+    def raised_any_resolution_guarantee(old, self, resource):
+        return resolution_frame(old.self, self)
+
+
+@contract("workflows.resource.ResourceDescriptor.set_type_annotation")
+class DescriptorSetTypeAnnotation:
+    properties = ["C22"]
+    trusted = True
+    raises = []
+    notes = "assumed: records the annotated class on the descriptor; name / cache (all the contracts see) are unchanged"
+
+    def requires(self, type_annotation):
+        return True
+
+    def ensures_nothing(old, self, type_annotation, result):
+        return True
+
+
+@contract("workflows.resource.ResourceDescriptor.set_localns")
+class DescriptorSetLocalns:
+    properties = ["C22"]
+    trusted = True
+    raises = []
+    notes = "assumed: records a namespace on the descriptor; name / cache are unchanged"
+
+    def requires(self, localns):
+        return True
+
+    def ensures_nothing(old, self, localns, result):
+        return True
+
+
+@contract("workflows.resource._Resource.get_dependencies")
+class ResourceGetDependencies:
+    properties = ["C22"]
+    trusted = True
+    raises = ["*user"]
+    ret_type = "list[tuple[str, ResourceDescriptor, Any]]"
+    notes = "assumed: signature inspection of the factory (inspect / typing); no manager in reach"
+
+    def requires(self):
+        return True
+
+    def ensures_function_of_the_descriptor(old, self, result):
+        # the dependencies are read off the factory's signature: one list per descriptor
+        return same(result, uf("dependencies_of", "list[tuple[str, ResourceDescriptor, Any]]", self))
+
+
+@contract("workflows.resource._Resource._resolve_dependencies")
+class ResourceResolveDependencies:
+    properties = ["C22"]
+    modifies = ["resource_manager"]
+    raises = ["ValueError", "*user", "CancelledError"]
+
+    def requires(self, resource_manager):
+        return resource_manager._resolution_depth >= 1
+
+    def inv_1():
+        return resolution_frame(old(resource_manager), resource_manager) and resource_manager._resolution_depth >= 1
+
+    def ensures_resolution_guarantee(old, self, resource_manager, result):
+        return resolution_frame(old.resource_manager, resource_manager)
+
+    def raised_any_resolution_guarantee(old, self, resource_manager):
+        return resolution_frame(old.resource_manager, resource_manager)
+
+
+@contract("workflows.resource._Resource.call")
+class ResourceCall:
+    properties = ["C22"]
+    modifies = ["resource_manager"]
+    raises = ["ValueError", "*user", "CancelledError"]
+
+    def requires(self, resource_manager):
+        return resource_manager._resolution_depth >= 1
+
+    def ensures_resolution_guarantee(old, self, resource_manager, result):
+        return resolution_frame(old.resource_manager, resource_manager)
+
+    def raised_any_resolution_guarantee(old, self, resource_manager):
+        return resolution_frame(old.resource_manager, resource_manager)
+
+
+@contract("workflows.resource._Resource.resolve")
+class ResourceResolve:
+    properties = ["C22"]
+    modifies = ["manager"]
+    raises = ["ValueError", "*user", "CancelledError"]
+    notes = "the protocol method's clauses (DescriptorResolve), proved for the repository's factory-backed descriptor"
+
+    def requires(self, manager):
+        return manager._resolution_depth >= 1
+
+    def ensures_resolution_guarantee(old, self, manager, result):
+        return resolution_frame(old.manager, manager)
+
+    def raised_any_resolution_guarantee(old, self, manager):
+        return resolution_frame(old.manager, manager)
